@@ -82,7 +82,7 @@ type Contracts struct {
 var clauseKeywords = map[string]bool{
 	"func": true, "iface": true, "extern": true, "callback": true, "spec": true, "axiom": true, "ghost": true,
 	"props": true, "arith": true, "flags": true, "requires": true, "ensures": true, "modifies": true,
-	"loop": true, "track": true, "panics": true, "params": true, "assert": true, "lemma": true,
+	"loop": true, "track": true, "panics": true, "statement": true, "params": true, "assert": true, "lemma": true,
 }
 
 func parseContracts(srcs []contractSource) (*Contracts, error) {
@@ -190,7 +190,15 @@ func parseContracts(srcs []contractSource) (*Contracts, error) {
 				}
 				cs.Specs[sf.Name] = sf
 				cur = nil
-			case "axiom", "lemma":
+			case "lemma":
+				id := rest
+				cur = &Contract{Kind: "lemma", ID: id, Flags: map[string]bool{}, Loops: map[int]*LoopSpec{}, File: src.File, Line: l.line}
+				if _, dup := cs.ByID["lemma "+id]; dup {
+					return nil, errf("duplicate lemma %s", id)
+				}
+				cs.ByID["lemma "+id] = cur
+				cs.Order = append(cs.Order, "lemma "+id)
+			case "axiom":
 				j := strings.Index(rest, ":")
 				if j < 0 {
 					return nil, errf("axiom needs 'name: expr'")
@@ -223,6 +231,12 @@ func parseContracts(srcs []contractSource) (*Contracts, error) {
 					}
 				case "params":
 					cur.Params = strings.Fields(strings.ReplaceAll(rest, ",", " "))
+				case "statement":
+					c, err := mkClause(rest)
+					if err != nil {
+						return nil, err
+					}
+					cur.Ensures = append(cur.Ensures, c)
 				case "requires":
 					c, err := mkClause(rest)
 					if err != nil {
@@ -315,7 +329,7 @@ func (cs *Contracts) funcsForProp(prop string) []*Contract {
 	var out []*Contract
 	for _, k := range cs.Order {
 		c := cs.ByID[k]
-		if c.Kind != "func" {
+		if c.Kind != "func" && c.Kind != "lemma" {
 			continue
 		}
 		for _, p := range c.Props {
